@@ -70,8 +70,23 @@ def edge_cover(c, rng, max_paths=None):
     paths = vlib.edge_cover_paths(g, rng=rng)
     total = len(paths)
     if max_paths and len(paths) > max_paths:
+        # a sample: half of it from the paths on which chain and pool really meet (a reorganisation that hands
+        # transactions back, a roll-forward that fails half way, production after a reorganisation), half from the rest
+        def meets(p):
+            acts = [g.out[s][k][1]["act"] for (s, k) in p]
+            for i, a in enumerate(acts):
+                if a.get("res") == "reorg" and a.get("returned"):
+                    return True
+                if a.get("res") == "reorgfail" and a.get("told"):
+                    return True
+                if a["name"] == "Produce" and any(x.get("res") == "reorg" for x in acts[:i]):
+                    return True
+            return False
         rng.shuffle(paths)
-        paths = paths[:max_paths]
+        hot = [p for p in paths if meets(p)]
+        rest = [p for p in paths if not meets(p)]
+        paths = hot[:max_paths // 2]
+        paths += rest[:max_paths - len(paths)]
     behs = []
     for p in paths:
         steps = []
@@ -156,7 +171,7 @@ def run_nodepool(c, pid):
     quick = c.tier == "quick"
     sims = [("Sim_NodePool.cfg", "N1", 90 if quick else 900, 16)]
     if not quick:
-        sims.append(("Sim_NodePool_N2.cfg", "N2", 600, 16))
+        sims.append(("Sim_NodePool_N2.cfg", "N2", 600, 17))
 
     # the TLC runs are independent (each in a work directory of its own): run them side by side
     class Sub:          # a Check-like collector per thread, merged afterwards in a fixed order
